@@ -200,7 +200,7 @@ def run_case(case):
 def bounded(tier, seed):
 	rnd = random.Random(seed)
 	cases = []
-	for _ in range(20 if tier == 'quick' else 300):
+	for _ in range(20 if tier == 'quick' else 2000):
 		cases.append({'fmt': rnd.choice(['csv', 'csv', 'json', 'archive']), 'seed': rnd.randrange(10 ** 6), 'n': rnd.choice([1, 2, 5]),
 		              'strict': rnd.random() < .4, 'rename': rnd.random() < .7, 'unreport': rnd.random() < .3, 'zero': rnd.random() < .5})
 	for order in ([1, 2], [2, 1], [1, 2, 1]):
